@@ -164,6 +164,13 @@ Feeds {{{n}}} people; use a {{2 1/2}} litre pan and {{0.75}} cups of stock per {
     {q2} eggs, beaten
     dough := knead(flour, eggs, {{1/2}} tsp salt)
     bake(dough)
+
+Then the topping, in a second block of the same recipe:
+
+```recipe
+{q1}ml cream
+whip(cream, {{2}} spoons sugar)
+```
 """
 
 
@@ -197,6 +204,15 @@ def mdscale_case(seed: int) -> Case:
         if got_vals != want_vals:
             viol = f"at factor {k} the title count / prose values show {got_vals}, exactly k times the written numbers is {want_vals}"
             break
+    # every recipe block (not only the first) is scaled: the second block's "{2} spoons" value
+    if viol is None:
+        for k in (k1, k2):
+            page = compile_markdown(text).render(k)
+            second = page[page.rfind('rg-recipe-block'):]
+            want = 'rg-scaled-value">' + render_number(2 * k) + '</span> spoons'
+            if want not in second:
+                viol = f"at factor {k} the second recipe block does not show {want!r}: later blocks of a recipe are not scaled by k"
+                break
     seq = [k1, k2, 1, k1]
     for k in (seq if viol is None else []):
         got = doc.render(k)
